@@ -277,6 +277,22 @@ func (x *Exec) convert(s *State, in *ssa.Convert) {
 			fr.env[in] = r
 			l := x.strLen(s, v.T)
 			s.assume(And(x.le(x.ilit(0), r.Len), x.le(r.Len, l), x.le(r.Len, r.Cap)))
+			if et := to.Underlying().(*types.Slice).Elem(); x.sortOf(et) == SBV32 && x.p.Theory != nil {
+				// []rune(s): the runes of s — a function of the string (rune_, nrunes_)
+				if _, ok := x.p.Theory.Funs["rune_"]; ok {
+					is := x.intSort()
+					rs := x.sortOf(et)
+					key := "S:" + typeStr(et)
+					as := SArray(is, rs)
+					arr := x.heapSym(s, key, SArray(SInt, as))
+					inner := x.fresh(s, "runes.elems", as)
+					s.facts = append(s.facts, T{fmt.Sprintf("(forall ((k!r %s)) (! (=> (and %s %s) (= (select %s k!r) (rune_ %s k!r))) :pattern ((select %s k!r))))",
+						is, x.le(x.ilit(0), T{"k!r", is}).S, x.lt(T{"k!r", is}, r.Len).S, inner.S, v.T.S, inner.S), SBool})
+					x.heapSet(s, key, Store(arr, al, inner))
+					s.assume(Eq(r.Len, mk(is, "nrunes_", v.T)))
+					x.needTheory = true
+				}
+			}
 		}
 	default:
 		x.unsupported("%s: convert %s -> %s", x.p.Names[fr.fn], from, to)
@@ -368,6 +384,7 @@ func (x *Exec) makeClosure(s *State, in *ssa.MakeClosure) {
 				x.unsupported("ensures[current] of %s at creation: %v", x.p.Names[fn], err)
 				continue
 			}
+			x.assumed["Current() of an iteratorFunc value reports what its closure is proved to return (ensures[current] of "+x.p.Names[fn]+"; rests on iterator.Current being deterministic and on the captured variable not being reassigned: checked syntactically)"] = true
 			s.assume(t)
 		}
 	}
